@@ -81,7 +81,7 @@ def run(run):
     run.assume("S-PY", "A-NPZ")
     try:
         model_facets(run)
-    except (AttributeError, TypeError, KeyError, IndexError) as e:
+    except (AttributeError, TypeError, KeyError, IndexError, OSError) as e:  # OSError: the code reaches the real file system past the archive model
         import traceback
 
         run.undecided("archive-model", FN, f"not interpretable: {type(e).__name__}: {e} @ {traceback.format_exc().splitlines()[-3].strip()[:120]}")
@@ -299,6 +299,24 @@ def nat_files(seed, count):
                     if not (eq(a, want) and eq(b, want)):
                         msgs.append(f"mixed archive: the {lab} mineral is not restored intact")
                 os.unlink(p4)
+            # history: an archive that is rewritten after it has been read (same path, same shapes, hence the same byte size):
+            # the next load must return what the file holds now
+            first = ms[0]
+            second = pydrex.Mineral(phase=first.phase, fabric=first.fabric, regime=first.regime, n_grains=first.n_grains, fractions_init=first.fractions[0], orientations_init=first.orientations[0])
+            second.orientations = [o[::-1] + 1.0 for o in first.orientations]
+            second.fractions = [f[::-1] * 0.5 + 0.25 for f in first.fractions]
+            p5 = os.path.join(tmp, f"rw{it}.npz")
+            pf5 = [None, "r", 0][it % 3]
+            for stage, want in (("first written", first), ("rewritten with other data of the same shape", second), ("rewritten again", first)):
+                if os.path.exists(p5) and pf5 is not None:
+                    os.unlink(p5)
+                want.save(p5) if pf5 is None else want.save(p5, pf5)
+                a = pydrex.Mineral.from_file(p5) if pf5 is None else pydrex.Mineral.from_file(p5, pf5)
+                b = pydrex.Mineral(n_grains=5, seed=1)
+                b.load(p5) if pf5 is None else b.load(p5, pf5)
+                if not (eq(a, want) and eq(b, want)):
+                    msgs.append(f"archive {stage} (postfix {pf5!r}): the loaders do not return the current contents of the file")
+            os.unlink(p5)
             for nm in ("x.txt", "x.npy"):
                 try:
                     pydrex.Mineral.from_file(os.path.join(tmp, nm))
